@@ -73,12 +73,22 @@ impl BuildTargetActor {
                             } // TODO Else, if ongoing build, cancel?
                         }
                         ActorInputMessage::Requested { kind: ExecutionKind::Build, requester } => {
-                            let inserted = self.helper.requesters.get_mut(&ExecutionKind::Build).unwrap().insert(requester);
+                            let inserted = self.helper.requesters.get_mut(&ExecutionKind::Build).unwrap().insert(requester.clone());
 
                             if inserted && self.helper.requesters[&ExecutionKind::Build].len() == 1 {
                                 // TODO Eventually, only request deps build (request services when build not skipped)
                                 self.helper.request_dependencies(ExecutionKind::Build).await;
                                 self.helper.request_dependencies(ExecutionKind::Service).await;
+                            }
+
+                            if inserted && self.helper.executed {
+                                // The build already succeeded: this requester missed the Ok sent at that time
+                                let msg = ActorInputMessage::Ok {
+                                    kind: ExecutionKind::Build,
+                                    target_id: self.helper.target_id.clone(),
+                                    actual: true,
+                                };
+                                self.helper.send_to_actor(requester, msg).await
                             }
                         }
                         ActorInputMessage::Requested { kind: ExecutionKind::Service, requester } => {
